@@ -61,6 +61,28 @@ def cursor_inputs():
         for tail in (b'', b'\x80', b'\xbf\x80', b'\x80\x80\x80', b'\x41', b'\x80\x41\x80', b'\xff\xff\xff'):
             out.append(b'utf8 ' + hx(bytes([b]) + tail).encode())
     out.append(b'utf8 -')
+    # ---- phase 4: functions that build a string
+    cps = [0, 1, 0x24, 0x25, 0x7f, 0x80, 0x7ff, 0x800, 0xd7ff, 0xd800, 0xdfff, 0xffff, 0x10000, 0x10ffff, 0x110000, 0x1fffff, 0x200000,
+           0x3ffffff, 0x4000000, 0x7fffffff, 0x80000000, 0xffffffff, 0x20ac, 0x1f680, 0xe9]
+    for cp in cps:
+        out.append(b'cpenc ' + hx(cp.to_bytes(4, 'big')).encode())
+    escs = []
+    for cp in cps:
+        for fmt in ('%x', '%X', '%08x', '%09x', '%04X'):
+            escs.append((fmt % cp).encode())
+    escs += [b'', b'0', b'00', b'0000000', b'00000000', b'000000000', b'12345678', b'123456789', b'fffffffff', b'aBcDeF', b'g', b'G', b'/', b':',
+             b'@', b'`', b'1g', b'1 ', b'1,', b'-1', b'+1', b'\x80', b'1\xb0', b'\xe9', b'1\x00', b'0x10', b'ag', b'FG', b'f@', b'a`', b'9:', b'0/']
+    etails = [b'%', b'', b'%%', b'%x', b'% ', b'\x00%', b' %', b'%\x80']
+    for k, e in enumerate(escs):
+        for tl in (etails[0], etails[1], etails[2 + k % 6]):
+            out.append(b'oplescaped ' + hx(e + tl).encode())
+    strs = [b'', b'a', b'abc', b' ', b'\t', b',', b'=', b'a b', b'a\tb', b'a,b', b'a=b', b'%20%', b'a%20%b', b'%%', b'%0%', b'%25%', b'a%', b'a%2', b'a%2g%',
+            b'ab%123456789%', b'ab%12345678%cd', b'%20ac%%1f680%', b'%e9%=%E9%', b'\x80\xff', b'\xc3\xa9=1', b'a\x00b', b'%\x00', b'a%41%%42%c d', b'%41',
+            b'%41% ', b'x%41%,y', b'%d800%', b'%110000%', b'%ffffffff%', b'%7f%%80%%7ff%%800%%ffff%%10000%', b'@', b'a@b', b'\n', b'a\nb', b'a%a%%A%%0a%',
+            b'%%%%', b'%%%', b'a%%b%', b'%g', b'ab%1', b'abc%zz%', b'a' * 70, b'%41%' * 20, b'a%20' * 3]
+    for x in strs:
+        out.append(b'oplstring ' + hx(x).encode())
+        out.append(b'oplstring ' + hx(x + b' tail').encode())
     return out
 
 
